@@ -300,6 +300,9 @@ def evaluate(ctx, cases):
         if o['valid'] != (mv is not None) and mv is not None and max((len(x) for x in re.findall(r'[0-9]+', text)), default=0) > 9 \
                 and type_desc(c['type']).startswith('xs:date'):
             ctx.dist('implementation_limit', 'huge year refused')
+        elif mv is not None and not o['valid'] and c['version'] == '1.1' and 'xs:date' in type_desc(c['type']) \
+                and re.fullmatch(r'-?[0-9]{5,}-02-29(Z|[+-][0-9:]+)?', text.strip(' \t\n\r')):
+            ctx.known_finding('F-C02a')     # elementpath (XSD 1.1 dates): leap years with more than four digits
         elif o['valid'] != (mv is not None):
             problems.append('text %r (code points %s) is %s by the implementation but %s for %s'
                             % (text, [ord(x) for x in text], 'accepted' if o['valid'] else 'rejected',
@@ -340,13 +343,13 @@ INT_CAT = ['0', '1', '-1', '+1', '007', '-0', '127', '128', '-128', '-129', '255
            '18446744073709551615', '18446744073709551616', '123456789012345678901234567890', '', ' ', ' 12 ', '\t12\n',
            '1 2', '1_000', '１２', '١٢', '12.0', '1.', '+', '-', '--1', '+-1', '0x10', '1e2', '１', '12 ', ' 12',
            '1 2', 'true', 'INF', '12a', '٣']
-DEC_CAT = ['0', '1', '-1', '+1.5', '1.50', '1.', '.5', '-.5', '.', '', ' 1.5 ', '12 1', '1e2', '1E2', 'NaN', 'INF', '1,5',
+DEC_CAT = ['0.00000000', '0.0000000', '-0.000000000', '0.00000001', '0', '1', '-1', '+1.5', '1.50', '1.', '.5', '-.5', '.', '', ' 1.5 ', '12 1', '1e2', '1E2', 'NaN', 'INF', '1,5',
            '0.000000001', '123456789012345678901234567890.123456789', '00.100', '+', '1..2', '1.2.3', '１.５', '1_0.5',
            '-0', '-0.0', '٣.٥', ' 1.5']
 BOOL_CAT = ['true', 'false', '1', '0', ' true ', 'TRUE', 'True', 'yes', '', '01', '10', 't', 'true false', '\ttrue\n',
             '１', 'tru e']
 STR_CAT = ['', 'a', ' a ', 'a  b', 'a\tb', ' \n a \r\n b ', 'a b', ' a', '  ', 'ab c']
-DATE_CAT = ['2020-02-29', '2021-02-29', '1900-02-29', '2000-02-29', '2020-13-01', '2020-00-10', '2020-04-31',
+DATE_CAT = ['12000-02-29', '20920-02-29', '10100-02-29', '2020-02-29', '2021-02-29', '1900-02-29', '2000-02-29', '2020-13-01', '2020-00-10', '2020-04-31',
             '2020-04-30', '2020-1-01', '20-01-01', '0000-01-01', '-0001-01-01', '-0000-01-01', '12345-01-01',
             '012345-01-01', '2020-01-01Z', '2020-01-01+14:00', '2020-01-01+14:01', '2020-01-01-13:59', '2020-01-01+15:00',
             '2020-01-01+05:60', '2020-01-01z', ' 2020-01-01 ', '2020-01-01T00:00:00', '2020-01-32', '2020-12-31', '',
